@@ -314,7 +314,7 @@ pub fn decode_read(buf: &[u8]) -> Vec<Option<u64>> {
 
 /// execute one data-path operation on a device (async, used by both the
 /// sequential and the concurrent engines)
-pub async fn run_op_async(dev: &Dev, op: &Op, vsize: u64) -> OpResult {
+pub async fn run_op_async<T: qcow2_rs::ops::Qcow2IoOps>(dev: &Qcow2Dev<T>, op: &Op, vsize: u64) -> OpResult {
     let mut r = OpResult { ok: false, err: None, panic: None, count: 0, words: vec![], alloc: None };
     let res: Result<usize, String> = match op {
         Op::Write { off, len, tag } => {
